@@ -12,6 +12,11 @@ from vlib import Check, tlc_mc, tlc_trace, require_mc, scratch, build_harness, l
 from checks import register
 
 
+BLANK = {"status": "none", "gc": 0, "start": False, "nseat": 0, "minp": 0, "rule": "", "mode": "", "actiontime": 0, "players": [], "seatmap": [], "gpi": [],
+         "dealer": 0, "sb": 0, "bb": 0, "blind": [], "gblind": [], "deadline": 0, "la": [], "nextbb": [], "hand": [], "serial": 0,
+         "sm": {"seat": [], "dealer": 0, "sb": 0, "bb": 0, "inited": False, "extra": 0}, "gate": {"gc": 0, "parts": []}, "released": False, "tid": ""}
+
+
 @register("C16")
 def check_c16(prop, tier, replay):
     ck = Check(prop, tier)
@@ -32,6 +37,13 @@ def check_c16(prop, tier, replay):
             cmd += ["--procs", str(procs)]
         jobs.append((cmd, out))
 
+    # the table's auto-sit-in machinery under a stream of reserve / sit-in / leave calls (own processes: a panic there
+    # takes the process down)
+    nchurn = 3 if tier == "quick" else 12
+    for i in range(nchurn):
+        out = os.path.join(d, "churn-%02d.ndjson" % i)
+        jobs.append(([VH, "churn", "--from", str(base + 50000 + 10 * i), "--count", "3", "--secs", "2" if tier == "quick" else "5", "--out", out], out))
+
     def run(job):
         cmd, out = job
         return job, subprocess.run(cmd, capture_output=True, text=True, timeout=2400, env=GOENV)
@@ -39,8 +51,16 @@ def check_c16(prop, tier, replay):
     with ThreadPoolExecutor(max_workers=8) as ex:
         for (cmd, out), p in ex.map(run, jobs):
             if p.returncode != 0:
+                # the engine process died: that is a line of the trace like any other, with what the panic message identifies
                 crashed += 1
-                log("vh conc worker died: " + p.stderr[-600:])
+                log("vh %s worker died: %s" % (cmd[1], p.stderr[-400:]))
+                err = p.stderr
+                sig = ""
+                if ("index out of range" in err or "nil pointer dereference" in err) and ("playersAutoIn" in err or ").PlayerJoin(" in err):
+                    sig = "autoin-race-panic"
+                with open(out, "a") as f:
+                    f.write(json.dumps({"tr": 0, "n": 999999, "ev": "crash", "procs": 0, "ops": [], "pre": BLANK, "st": BLANK, "smpre": {"seat": []}, "smst": {"seat": []},
+                                        "note": err[-300:], "sig": sig, "acc": 0, "mover": ""}) + "\n")
             try:
                 scen += json.loads([l for l in p.stdout.splitlines() if l.startswith("{")][-1]).get("scenarios", 0)
             except Exception:
@@ -56,8 +76,7 @@ def check_c16(prop, tier, replay):
                         g.write(l)
                     except Exception:
                         pass
-    if crashed:
-        raise Inconclusive("%d vh conc worker(s) died (engine panic under concurrency); see log above" % crashed)
+    ck.cov["workers_died"] = crashed
     tr = tlc_trace("ConcTrace.tla", "ConcTrace.cfg", merged, timeout=2400, parts=12)
     ck.cov["trace_lines"] = tr["lines"]
     ck.cov["traces_validated_against_impl"] = tr["lines"]
